@@ -3080,6 +3080,7 @@ class Entity(MutableMapping[str, str]):
         self['classname'] = 'info_null'
         del self['targetname']
         self._keys.clear()
+        self._keys['classname'] = 'info_null'
         # Clear $fixup as well.
         self._fixup = None
     clear_keys = clear
